@@ -380,7 +380,9 @@ func (inv *Invoice) validatePrecedingData(o *CorrectionOptions, cd *tax.Correcti
 		if s == nil {
 			return fmt.Errorf("missing stamp: %v", k)
 		}
-		pre.Stamps = append(pre.Stamps, s)
+		// copy, the stamp object belongs to the header of the source envelope
+		sc := *s
+		pre.Stamps = append(pre.Stamps, &sc)
 	}
 
 	if len(cd.Types) > 0 && !o.Type.In(cd.Types...) {
